@@ -2,13 +2,39 @@
 
 package git
 
-// VerifNewRepository builds a Repository value without running git (used by
-// the verification harness, whose command stages are in-process models).
-func VerifNewRepository(gitDir, gitBin string) *Repository {
-	return &Repository{gitDir: gitDir, gitBin: gitBin}
-}
+import (
+	"reflect"
+	"strings"
+	"unsafe"
+)
 
-// VerifConfigKeyMatchesPrefix exposes the prefix helper.
-func VerifConfigKeyMatchesPrefix(key, prefix string) (bool, string) {
-	return configKeyMatchesPrefix(key, prefix)
+// VerifNewRepository builds a Repository value without running git (used by
+// the verification harness, whose command stages are in-process models). The
+// private fields are found by reflection (the string field whose name mentions
+// "dir" takes the git dir, the one mentioning "bin" the git executable), so
+// that renaming them does not break the harness build.
+func VerifNewRepository(gitDir, gitBin string) *Repository {
+	repo := &Repository{}
+	v := reflect.ValueOf(repo).Elem()
+	set := 0
+	for i := 0; i < v.NumField(); i++ {
+		f := v.Field(i)
+		if f.Kind() != reflect.String {
+			continue
+		}
+		name := strings.ToLower(v.Type().Field(i).Name)
+		w := reflect.NewAt(f.Type(), unsafe.Pointer(f.UnsafeAddr())).Elem()
+		switch {
+		case strings.Contains(name, "dir"):
+			w.SetString(gitDir)
+			set++
+		case strings.Contains(name, "bin"):
+			w.SetString(gitBin)
+			set++
+		}
+	}
+	if set != 2 {
+		panic("verif: cannot locate the git dir and git binary fields of git.Repository")
+	}
+	return repo
 }
